@@ -128,7 +128,7 @@ PLAN = {
     "C19": _qplan("one block object: submit (async / sync / group_async / direct call / dispatch_block_perform) racing cancel, wait (forever, 1 ms), notify and testcancel from 2-3 threads, "
                   "flags 0 / BARRIER on a concurrent queue / QoS flags",
                   "k<=2 for 2-thread scenarios on a serial queue, k<=1 with notify / 3 threads / concurrent queue", "k<=3 / k<=2 / k<=1"),
-    "C10": _qplan("dispatch_apply with n in {0,1,2,3,5} on APPLY_AUTO / global / serial / concurrent / concurrent->serial / concurrent with a racing barrier / width-2 queues, "
+    "C10": _qplan("dispatch_apply with n in {0,1,2,3,5} on APPLY_AUTO / global / serial / concurrent / concurrent->serial / concurrent with a racing barrier / width-2 queues / queues that are busy (a running item or barrier) when apply is called, "
                   "nested apply(2) inside apply(2), each with 1, 2 and 3 CPUs (so n is below, at and above the helper count)",
                   "k<=2 (k<=1, and k=0 for n>=3 on 3 CPUs, with the racing barrier)", "k<=3 for n<=2, k<=2 otherwise; racing barrier k<=1/2"),
     "C06": _qplan("suspend/resume/activate scripts from 1-3 threads on one queue (racing pairs at inline depth 0/62/63, suspend from an item or a barrier item, blocked dispatch_sync, "
@@ -138,7 +138,7 @@ PLAN = {
                   "k<=3 without queues, k<=2 with notify/group_async from 2 threads, k<=1 for 3-thread and global-queue programs", "k<=4 / k<=2 / k<=2 / k<=1"),
     "C08": _qplan("all wait(forever/1 ms/now)/signal programs of 2 threads x <=2 ops and 3 threads x 1 op on a semaphore of value 0 or 1 (232 programs; thorough adds 982 three-thread programs), final drain",
                   "k<=3 deviations (preemptions + timeout-first choices) for all 232 programs", "k<=4 for the 232 programs, k<=3 for the 982 three-thread programs"),
-    "C15": _qplan("DATA_ADD/OR/REPLACE sources on serial/concurrent/global targets, 1-3 merging threads x <=3 merges, suspended-while-merging and merge-from-handler variants, final sentinel merge",
+    "C15": _qplan("DATA_ADD/OR/REPLACE sources on serial/concurrent/global targets, 1-3 merging threads x <=3 merges, suspended-while-merging, merge-from-handler, merged-before-activation and activation-racing-the-merges variants, final sentinel merge",
                   "serial target: k<=2 for 4 scripts, k<=1 for the rest; pool targets: k<=1 for the 2-thread and single-thread scripts", "k<=2 everywhere except 3-thread scripts on pool targets (k<=1)"),
     "C01": _qplan("2-3 client threads, 1-3 submissions each over serial/concurrent/global/chained queues, ping-pong, gated and cold-pool variants",
                   "k<=2 for programs on serial hierarchies, k<=1 for programs that run on the pool concurrently",
@@ -301,11 +301,15 @@ def tasks_for(pid, tier):
         for v in variants("source"):
             ty, tk, sc = v % 3, (v // 3) % 3, v // 9
             if tk == 0:
-                k = 2 if (not q or sc in (0, 4, 5, 6)) else 1
+                k = 2 if (not q or sc in (0, 4, 5, 6, 7)) else 1
                 out += ds("source", k, [v], jobs=6)
             elif q:
-                if (sc == 0 and (tk == 1 or ty == 0)) or sc == 6:
+                if (sc == 0 and (tk == 1 or ty == 0)) or sc == 6 or sc == 7:
                     out += ds("source", 1, [v], jobs=8)
+                elif sc == 8:          # activation racing the merges on a pool target: ~10^2 schedules at k=0, 3*10^4 at k=1
+                    out += ds("source", 0, [v], jobs=4)
+            elif sc == 8:
+                out += ds("source", 1, [v], jobs=8)
             else:
                 out += ds("source", 1 if sc == 3 else 2, [v], jobs=8)
         out.sort(key=lambda t: (t["jobs"], t["k"], t["variant"]))
